@@ -463,7 +463,7 @@ fn q_boundary(s: &QSpec) -> bool {
 
 pub struct QueriesG;
 impl Group for QueriesG {
-    const REDUCED_MAX: u64 = 32;
+    const REDUCED_MAX: u64 = 16;
     type Spec = QSpec;
     const NAME: &'static str = "queries";
     fn cases(tier: Tier) -> u64 {
@@ -760,7 +760,7 @@ pub fn build_fri(s: &FriSpec) -> Result<FriProof, Fail> {
 
 pub struct FriG;
 impl Group for FriG {
-    const REDUCED_MAX: u64 = 32;
+    const REDUCED_MAX: u64 = 16;
     type Spec = FriSpec;
     const NAME: &'static str = "fri";
     fn cases(tier: Tier) -> u64 {
@@ -862,7 +862,7 @@ pub fn proof_strategy() -> BoxedStrategy<ProofSpec> {
 
 pub struct ProofG;
 impl Group for ProofG {
-    const REDUCED_MAX: u64 = 32;
+    const REDUCED_MAX: u64 = 16;
     type Spec = ProofSpec;
     const NAME: &'static str = "proof";
     fn cases(tier: Tier) -> u64 {
